@@ -101,6 +101,40 @@ mutant: stream\\.write<uint8_t>\\(it->length_field\\(\\)\\); ==> stream.write<ui
       setup='uint32_t W_ext = nondet_uint32_t(), W_fixed = nondet_uint32_t(); __CPROVER_assume(W_ext <= 8 && W_fixed <= 12); d->G_ext = W_ext; d->G_fixed = W_fixed;',
       hs='(uint32_t)sizeof(dot11_header) + W_ext + W_fixed',
       rd_code='v[pos]', rd_len='v[pos + 1]', post=''),
+dict(cls='DHCPv6', what='option', src='src/dhcpv6.cpp', hdr='include/tins/dhcpv6.h', vec='options_', size_member='options_size_', ohdr=4, maxcode='65535',
+      xanch=', DHCPv6::write_option, DHCPv6::is_relay_message, DHCPv6::msg_type', xassumed='',
+      decls='typedef struct { uint8_t b[16]; } V6;\ntypedef struct { uint8_t header_data_[4]; uint32_t options_size_; V6 link_addr_, peer_addr_; OPTV options_; } DHCPv6;',
+      funcs='''//@ func include/tins/dhcpv6.h DHCPv6::msg_type match "msg_type() const"
+sig: static uint8_t DHCPv6_msg_type(const DHCPv6* this)
+class: DHCPv6 include/tins/dhcpv6.h
+rule?: \\(MessageType\\) ==> (uint8_t)
+//@ endfunc
+//@ func src/dhcpv6.cpp DHCPv6::is_relay_message
+sig: static _Bool DHCPv6_is_relay_message(const DHCPv6* this)
+class: DHCPv6 include/tins/dhcpv6.h
+//@ endfunc
+//@ func src/dhcpv6.cpp DHCPv6::write_option
+sig: static void DHCPv6_write_option(const DHCPv6* this, const OPT* opt, OMS* stream)
+class: DHCPv6 include/tins/dhcpv6.h
+rule: opt\\.option\\(\\) ==> OPT_option(opt)
+rule: opt\\.length_field\\(\\) ==> OPT_length_field(opt)
+rule: opt\\.data_ptr\\(\\), opt\\.data_size\\(\\) ==> OPT_data_ptr(opt), OPT_data_size(opt)
+rule: stream\\.write_be<uint16_t>\\( ==> OMS_write_be_uint16_t(stream, 
+rule: stream\\.write\\((OPT_data_ptr.*?)\\); ==> OMS_write_buf(stream, \\1);
+mutant: stream\\.write_be<uint16_t>\\(opt\\.length_field\\(\\)\\); ==> stream.write<uint16_t>(opt.length_field());
+//@ endfunc
+//@ func src/dhcpv6.cpp DHCPv6::write_serialization
+sig: static void DHCPv6_write_serialization(DHCPv6* this, uint8_t* buffer, uint32_t total_sz)
+class: DHCPv6 include/tins/dhcpv6.h
+members: header_data_ options_size_ link_addr_ peer_addr_ options_
+rule?: OMS_write\\(&stream, this->header_data_, required_size\\); ==> OMS_write_buf(&stream, this->header_data_, required_size);
+rule?: OMS_write_val\\(&stream, this->(link|peer)_addr_\\); ==> OMS_write_buf(&stream, this->\\1_addr_.b, 16);
+rule: for \\(options_type::const_iterator it = this->options_\\.begin\\(\\); it != this->options_\\.end\\(\\); \\+\\+it\\) ==> for (const OPT* it = &this->options_.e[0]; it != &this->options_.e[0] + this->options_.n; ++it)
+rule: DHCPv6_write_option\\(this, \\*it, stream\\) ==> DHCPv6_write_option(this, it, &stream)
+//@ endfunc''',
+      setup='uint8_t W_type = nondet_uint8_t(); d->header_data_[0] = W_type;',
+      hs='((W_type == 12 || W_type == 13) ? 2u + 32u : 4u)   /* RFC 8415: relay messages carry hop count + two addresses, the others a 3-octet transaction id */',
+      rd_code='(uint16_t)((v[pos] << 8) | v[pos + 1])', rd_len='(uint16_t)((v[pos + 2] << 8) | v[pos + 3])', post=''),
 ]
 
 
